@@ -25,12 +25,13 @@ What makes each mirror go through (and where it does not):
   values (the reversed, negated sort — unique because `≤` is antisymmetric on non-NaN floats, ties are equal
   values) gives the same comparison.  Hypothesis: no stored `completed_rung_k` is NaN (`NoNanRungs`; invariant of
   every reachable study, `C16.sh_never_stores_nan`) — Python's `sort` with NaN has no mirror law.
-* Percentile / Median: numpy's percentile at `100 - q` of the values is minus the percentile at `q` of the
-  negated values; `best < p` / `best > p` are both strict.  This needs the two `_lerp` branches to agree
-  (`a + d·t = b - d·(1 - t)`), which holds for finite neighbours only: **with a ±inf report the real
-  MedianPruner is NOT symmetric** — `percentile_mirror_fails_with_inf` (witness replayed on the real code:
-  reports {-inf, 0}, current 5, minimize → pruned; reports {+inf, 0}, current -5, maximize → kept).
-  Hypothesis `NoInf` on the values the COMPLETE trials reported at the step.
+* Percentile / Median: since the repair of F41 the source computes the MAXIMIZE case as the mirror of the MINIMIZE case
+  itself (`-np.nanpercentile(-values, percentile)`), `best < p` / `best > p` are both strict: the mirror holds for EVERY
+  state, ±inf reports included, with no hypothesis.  The formulation before the repair (`percentile = 100 - percentile` on
+  the raw values) is kept as `percentileOverTrialsOld` / `percentilePruneOld`: it mirrors only without ±inf reports
+  (`percentileOverTrialsOld_mirror`), and `percentile_mirror_fails_with_inf` is the witness (numpy's two `_lerp` branches
+  `a + d·t` / `b - d·(1 - t)` agree for finite neighbours only) — a revert of the source is recognised by the skeleton
+  translator, `C16SkelGen.gen_percentile_over_trials` and the C13 site table, and replayed by `inf_percentile_witness`.
 -/
 set_option linter.unusedSimpArgs false
 set_option linter.unusedVariables false
@@ -40,28 +41,49 @@ open OptunaVerif OptunaVerif.Pruners OptunaVerif.Skel
 /-! ## whole-`prune` mirrors on Model/Pruners.lean -/
 
 /-- **PercentilePruner, whole `prune`** (start-up, `last_step`, warm-up, interval, NaN best, `n_min_trials`, the
-percentile at `100 - q`, the strict comparison), any state without ±inf reports among the COMPLETE trials. -/
-theorem prune_mirror_percentile (crc : Nat → Nat) (trials : List PTrial) (n : Nat) (t : PTrial) (c : PercentileCfg)
-    (hq0 : 0 ≤ c.q) (hq1 : c.q ≤ 100) (hinf : ∀ step, NoInf (valuesAtStep (completedTrials trials) step)) :
+percentile as the source computes it under each direction, the strict comparison): EVERY state, ±inf reports included. -/
+theorem prune_mirror_percentile (crc : Nat → Nat) (trials : List PTrial) (n : Nat) (t : PTrial) (c : PercentileCfg) :
     prune crc ⟨.maximize, trials⟩ n t (.percentile c) =
       prune crc ⟨.minimize, trials.map negT⟩ n (negT t) (.percentile c) := by
-  simp only [prune, percentilePrune_mirror c trials t hq0 hq1 hinf]
+  simp only [prune, percentilePrune_mirror c trials t]
 
 /-- MedianPruner = PercentilePruner(50) -/
-theorem prune_mirror_median (crc : Nat → Nat) (trials : List PTrial) (n : Nat) (t : PTrial) (a b c d : Nat)
-    (hinf : ∀ step, NoInf (valuesAtStep (completedTrials trials) step)) :
+theorem prune_mirror_median (crc : Nat → Nat) (trials : List PTrial) (n : Nat) (t : PTrial) (a b c d : Nat) :
     prune crc ⟨.maximize, trials⟩ n t (Pruner.median a b c d) =
       prune crc ⟨.minimize, trials.map negT⟩ n (negT t) (Pruner.median a b c d) :=
-  prune_mirror_percentile crc trials n t _ (show (0 : Rat) ≤ 50 by decide +kernel) (show (50 : Rat) ≤ 100 by decide +kernel) hinf
+  prune_mirror_percentile crc trials n t _
 
-/-- the hypothesis `NoInf` cannot be dropped: numpy's `_lerp` at `t = 1/2` between `-inf` and `0` is `-inf`, between
-`0` and `+inf` it is `inf - inf = nan`; the median pruner then prunes under minimize and not under maximize. -/
+/-- the formulation BEFORE the repair of F41 is not symmetric with a ±inf report: numpy's `_lerp` at `t = 1/2` between
+`-inf` and `0` is `-inf`, between `0` and `+inf` it is `inf - inf = nan`; the old median pruner then prunes under minimize
+and not under maximize (this is what the real code did up to the repair; a revert brings it back). -/
 theorem percentile_mirror_fails_with_inf :
+    percentilePruneOld ⟨50, 0, 0, 1, 1⟩ .minimize
+      [⟨.complete, [(0, .ninf)], []⟩, ⟨.complete, [(0, .fin 0)], []⟩] ⟨.running, [(0, .fin 5)], []⟩ = true ∧
+    percentilePruneOld ⟨50, 0, 0, 1, 1⟩ .maximize
+      ([⟨.complete, [(0, .ninf)], []⟩, ⟨.complete, [(0, .fin 0)], []⟩].map negT) (negT ⟨.running, [(0, .fin 5)], []⟩) = false := by
+  decide +kernel
+
+/-- … and the same witness under today's formulation is symmetric: pruned in both runs -/
+example :
     percentilePrune ⟨50, 0, 0, 1, 1⟩ .minimize
       [⟨.complete, [(0, .ninf)], []⟩, ⟨.complete, [(0, .fin 0)], []⟩] ⟨.running, [(0, .fin 5)], []⟩ = true ∧
     percentilePrune ⟨50, 0, 0, 1, 1⟩ .maximize
-      ([⟨.complete, [(0, .ninf)], []⟩, ⟨.complete, [(0, .fin 0)], []⟩].map negT) (negT ⟨.running, [(0, .fin 5)], []⟩) = false := by
+      ([⟨.complete, [(0, .ninf)], []⟩, ⟨.complete, [(0, .fin 0)], []⟩].map negT) (negT ⟨.running, [(0, .fin 5)], []⟩) = true := by
   decide +kernel
+
+/-- on values without ±inf the two formulations agree in exact arithmetic (they differ by float rounding only) -/
+theorem percentile_old_eq_new_without_inf (completed : List PTrial) (d : Dir) (step : Int) (q : Rat) (nMin : Nat)
+    (h : NoInf (valuesAtStep completed step)) (hq0 : 0 ≤ q) (hq1 : q ≤ 100) :
+    percentileOverTrials completed d step q nMin = percentileOverTrialsOld completed d step q nMin := by
+  unfold percentileOverTrials percentileOverTrialsOld
+  simp only
+  split
+  · rfl
+  · cases d with
+    | minimize => rfl
+    | maximize =>
+      simp only
+      rw [npPercentile_neg _ q h hq0 hq1, xneg_xneg]
 
 example : prune (fun _ => 0) ⟨.maximize, [⟨.complete, [(0, .fin 1)], []⟩, ⟨.complete, [(0, .fin 3)], []⟩]⟩ 2
       ⟨.running, [(0, .fin 0)], []⟩ (Pruner.median 0 0 1 1) = noWrite true ∧
@@ -97,18 +119,16 @@ example : (prune (fun _ => 0) ⟨.maximize, [⟨.running, [(1, .fin 0)], [(0, .f
 /-- **every pruner, whole `prune`** — in particular **PatientPruner around any pruner that itself mirrors** (the
 induction step: the window comparison mirrors, then the wrapped pruner's mirror applies). -/
 theorem prune_mirror_all (crc : Nat → Nat) (trials : List PTrial) (n : Nat) (t : PTrial) (p : Pruner)
-    (hq : PercentileOk p) (hinf : NeedsNoInf p → ∀ step, NoInf (valuesAtStep (completedTrials trials) step))
     (hr : NoNanRungs trials) :
     prune crc ⟨.minimize, trials.map negT⟩ n (negT t) (mirrorP p) = negR (prune crc ⟨.maximize, trials⟩ n t p) :=
-  prune_mirror crc trials n t p hq hinf hr
+  prune_mirror crc trials n t p hr
 
 /-- PatientPruner (wrapped or not): decisions equal -/
 theorem prune_mirror_patient (crc : Nat → Nat) (trials : List PTrial) (n : Nat) (t : PTrial) (w : Pruner) (k : Nat) (dl : Rat)
-    (hq : PercentileOk w) (hinf : NeedsNoInf w → ∀ step, NoInf (valuesAtStep (completedTrials trials) step))
     (hr : NoNanRungs trials) :
     (prune crc ⟨.maximize, trials⟩ n t (.patient w k dl)).prune =
       (prune crc ⟨.minimize, trials.map negT⟩ n (negT t) (.patient (mirrorP w) k dl)).prune := by
-  have := prune_mirror_all crc trials n t (.patient w k dl) hq hinf hr
+  have := prune_mirror_all crc trials n t (.patient w k dl) hr
   simp only [mirrorP] at this
   rw [this]; rfl
 
@@ -132,26 +152,25 @@ theorem prunerValid_mirror (p : Pruner) (h : C16SkelGen.PrunerValid p) : C16Skel
 pruner under maximize on the study and under minimize on the negated study (thresholds mirrored) gives the same
 decision. -/
 theorem gen_prune_mirror (crc : Nat → Nat) (trials : List PTrial) (n : Nat) (t : PTrial) (p : Pruner)
-    (hv : C16SkelGen.PrunerValid p) (hq : PercentileOk p)
-    (hinf : NeedsNoInf p → ∀ step, NoInf (valuesAtStep (completedTrials trials) step)) (hr : NoNanRungs trials) :
+    (hv : C16SkelGen.PrunerValid p) (hr : NoNanRungs trials) :
     C16SkelGen.skelPrune crc ⟨.maximize, trials⟩ n t p =
       C16SkelGen.skelPrune crc ⟨.minimize, trials.map negT⟩ n (negT t) (mirrorP p) := by
   rw [C16SkelGen.skel_prune_eq crc _ n t p hv, C16SkelGen.skel_prune_eq crc _ n (negT t) (mirrorP p) (prunerValid_mirror p hv),
-    prune_mirror_all crc trials n t p hq hinf hr]
+    prune_mirror_all crc trials n t p hr]
   rfl
 
 theorem gen_prune_mirror_percentile (crc : Nat → Nat) (trials : List PTrial) (n : Nat) (t : PTrial) (c : PercentileCfg)
-    (hq0 : 0 ≤ c.q) (hq1 : c.q ≤ 100) (hinf : ∀ step, NoInf (valuesAtStep (completedTrials trials) step)) :
+    :
     C16SkelGen.skelPrune crc ⟨.maximize, trials⟩ n t (.percentile c) =
       C16SkelGen.skelPrune crc ⟨.minimize, trials.map negT⟩ n (negT t) (.percentile c) := by
   rw [C16SkelGen.skel_prune_eq crc _ n t (.percentile c) trivial, C16SkelGen.skel_prune_eq crc _ n (negT t) (.percentile c) trivial,
-    prune_mirror_percentile crc trials n t c hq0 hq1 hinf]
+    prune_mirror_percentile crc trials n t c]
 
 theorem gen_prune_mirror_median (crc : Nat → Nat) (trials : List PTrial) (n : Nat) (t : PTrial) (a b c d : Nat)
-    (hinf : ∀ step, NoInf (valuesAtStep (completedTrials trials) step)) :
+    :
     C16SkelGen.skelPrune crc ⟨.maximize, trials⟩ n t (Pruner.median a b c d) =
       C16SkelGen.skelPrune crc ⟨.minimize, trials.map negT⟩ n (negT t) (Pruner.median a b c d) :=
-  gen_prune_mirror_percentile crc trials n t _ (show (0 : Rat) ≤ 50 by decide +kernel) (show (50 : Rat) ≤ 100 by decide +kernel) hinf
+  gen_prune_mirror_percentile crc trials n t _
 
 theorem gen_prune_mirror_threshold (crc : Nat → Nat) (trials : List PTrial) (n : Nat) (t : PTrial) (c : ThresholdCfg) :
     C16SkelGen.skelPrune crc ⟨.maximize, trials⟩ n t (.threshold c) =
@@ -163,20 +182,19 @@ theorem gen_prune_mirror_sh (crc : Nat → Nat) (trials : List PTrial) (n : Nat)
     (hr : NoNanRungs trials) :
     C16SkelGen.skelPrune crc ⟨.maximize, trials⟩ n t (.sh c) =
       C16SkelGen.skelPrune crc ⟨.minimize, trials.map negT⟩ n (negT t) (.sh c) :=
-  gen_prune_mirror crc trials n t (.sh c) hv trivial (fun h => nomatch h) hr
+  gen_prune_mirror crc trials n t (.sh c) hv hr
 
 theorem gen_prune_mirror_hyperband (crc : Nat → Nat) (trials : List PTrial) (n : Nat) (t : PTrial) (c : HBCfg) (hv : c.Valid)
     (hr : NoNanRungs trials) :
     C16SkelGen.skelPrune crc ⟨.maximize, trials⟩ n t (.hyperband c) =
       C16SkelGen.skelPrune crc ⟨.minimize, trials.map negT⟩ n (negT t) (.hyperband c) :=
-  gen_prune_mirror crc trials n t (.hyperband c) hv trivial (fun h => nomatch h) hr
+  gen_prune_mirror crc trials n t (.hyperband c) hv hr
 
 theorem gen_prune_mirror_patient (crc : Nat → Nat) (trials : List PTrial) (n : Nat) (t : PTrial) (w : Pruner) (k : Nat) (dl : Rat)
-    (hv : C16SkelGen.PrunerValid w) (hq : PercentileOk w)
-    (hinf : NeedsNoInf w → ∀ step, NoInf (valuesAtStep (completedTrials trials) step)) (hr : NoNanRungs trials) :
+    (hv : C16SkelGen.PrunerValid w) (hr : NoNanRungs trials) :
     C16SkelGen.skelPrune crc ⟨.maximize, trials⟩ n t (.patient w k dl) =
       C16SkelGen.skelPrune crc ⟨.minimize, trials.map negT⟩ n (negT t) (.patient (mirrorP w) k dl) :=
-  gen_prune_mirror crc trials n t (.patient w k dl) hv hq hinf hr
+  gen_prune_mirror crc trials n t (.patient w k dl) hv hr
 
 /-- non-vacuity: the interpreted skeletons on a mirrored pair (median prunes in both runs) -/
 example :
